@@ -1,0 +1,94 @@
+//! Hooks for deterministic-simulation verification.
+//!
+//! This module is compiled only with `--cfg scylla_verif`. It contains
+//! process-global registries that a simulation harness fills in (a simulated
+//! transport, a simulated wall clock, a scheduling-point callback) and public
+//! re-exports of thin wrappers over crate-private items, so that a harness
+//! can drive the real code directly. Without the cfg flag nothing here exists
+//! and the driver's behaviour is unchanged.
+
+#![allow(missing_docs)]
+#![allow(unreachable_pub)]
+
+use std::future::Future;
+use std::io;
+use std::net::{IpAddr, SocketAddr};
+use std::pin::Pin;
+use std::sync::{Arc, RwLock};
+use std::time::SystemTime;
+
+use tokio::io::{AsyncRead, AsyncWrite};
+
+/// A byte stream provided by the simulator in place of a TCP stream.
+pub trait SimIo: AsyncRead + AsyncWrite + Send + Unpin + 'static {}
+impl<T: AsyncRead + AsyncWrite + Send + Unpin + 'static> SimIo for T {}
+
+pub type BoxedStream = Box<dyn SimIo>;
+pub type ConnectFuture = Pin<Box<dyn Future<Output = io::Result<BoxedStream>> + Send>>;
+
+/// The transport seam: replaces `connect_with_source_ip_and_port`.
+pub trait SimConnector: Send + Sync + 'static {
+    fn connect(
+        &self,
+        connect_address: SocketAddr,
+        source_ip: Option<IpAddr>,
+        source_port: Option<u16>,
+    ) -> ConnectFuture;
+}
+
+static CONNECTOR: RwLock<Option<Arc<dyn SimConnector>>> = RwLock::new(None);
+
+/// Installs (or removes) the simulated transport. While one is installed,
+/// every connection the driver opens goes through it instead of TCP.
+pub fn set_connector(connector: Option<Arc<dyn SimConnector>>) {
+    *CONNECTOR.write().unwrap() = connector;
+}
+
+pub(crate) fn connector() -> Option<Arc<dyn SimConnector>> {
+    CONNECTOR.read().unwrap().clone()
+}
+
+static WALL_CLOCK: RwLock<Option<fn() -> SystemTime>> = RwLock::new(None);
+
+/// Installs (or removes) the simulated wall clock read by
+/// `MonotonicTimestampGenerator`.
+pub fn set_wall_clock(clock: Option<fn() -> SystemTime>) {
+    *WALL_CLOCK.write().unwrap() = clock;
+}
+
+/// Stand-in for `std::time::SystemTime` at hooked call sites.
+pub struct SimSystemTime;
+
+impl SimSystemTime {
+    pub fn now() -> SystemTime {
+        let clock = *WALL_CLOCK.read().unwrap();
+        match clock {
+            Some(clock) => clock(),
+            None => SystemTime::now(),
+        }
+    }
+}
+
+static SCHED_POINT: RwLock<Option<fn(&'static str)>> = RwLock::new(None);
+
+/// Installs (or removes) the callback invoked at scheduling points.
+pub fn set_sched_point(callback: Option<fn(&'static str)>) {
+    *SCHED_POINT.write().unwrap() = callback;
+}
+
+/// A scheduling point between two shared-state operations of lock-free code.
+/// No-op unless a callback is installed.
+#[inline]
+pub(crate) fn sched_point(site: &'static str) {
+    let callback = *SCHED_POINT.read().unwrap();
+    if let Some(callback) = callback {
+        callback(site);
+    }
+}
+
+pub use crate::cluster::metadata::merge_channel::verif_api::{
+    VerifMergeReceiver, VerifMergeSender, verif_merge_channel,
+};
+pub use crate::network::verif_api::{VerifHandlerLookup, VerifHandlerMap};
+pub use crate::policies::speculative_execution::verif_api::speculative_execute;
+pub use crate::routing::locator::tablets::verif_api::{VerifTablet, VerifTablets};
